@@ -79,6 +79,11 @@ impl<'a> Visitor for Enumerate<'a> {
         scenarios::<F, D>(d, &l, self.stats);
         for inputs in input_points::<F>(&l, self.mode) {
             for cfg in &cfgs {
+                // length 3 at three of the five points (the thorough tier stays within ~20 min)
+                let re = (inputs[0].vals[0].to64(), inputs[1].vals[0].to64());
+                if cfg.max_len >= 3 && (re.0 == 20.0 || re.0 == -0.625) {
+                    continue;
+                }
                 let info = bfs_programs::<F, D>(d, &l, &inputs, cfg, self.stats);
                 self.capped |= info.capped;
                 self.axes.push(json!({
